@@ -169,7 +169,8 @@ class SessionCheck(Check):
             "library seed constants, clock jump, restart in a cold interpreter under another PYTHONHASHSEED), auxiliary "
             "public calls in between (PositionVoronoi, related half Voronoi, index helpers, names, raw Voronoi getters, "
             "from_full_array_to_o_b_t), full-grid twins with equal names but another factor / position mode / spelling "
-            "of the radii. "
+            "of the radii. A sample of the returned objects is kept by the simulated caller and digested again at "
+            "the end of the history (the kind of container - list, tuple, array - is part of every digest). "
             "Non-trivial: >=1 fault fired or >=2 objects alive at once, and >=1 observation compared with the "
             "cold reference. Distinct = distinct hash of the sequence of (op kind, spec, getter, fault kind).")
     components = {"real": ["molgri.space.rotobj / polytopes / voronoi / fullgrid / translations, molgri.naming",
